@@ -120,7 +120,9 @@ func init() {
 			} else {
 				closed = "0"
 			}
-			conn.Close()
+			// the client keeps ITS end open until the proxy has released everything: a proxy that only half-closes and then
+			// waits for the client would otherwise go unnoticed
+			defer conn.Close()
 		case "hstall":
 			// send a prefix of a ClientHello (possibly nothing) and stall
 			c, err := net.DialTimeout("tcp", env.addr, 3*time.Second)
@@ -139,7 +141,21 @@ func init() {
 			} else {
 				closed = "0"
 			}
-			c.Close()
+			defer c.Close()
+		case "bstall":
+			// the first bytes are not a TLS record at all (plain HTTP on the TLS port, SSLv2, noise); the client reads whatever
+			// the proxy answers and then stays connected and silent: it must be cut all the same
+			c, err := net.DialTimeout("tcp", env.addr, 3*time.Second)
+			if err != nil {
+				return "fail=dial"
+			}
+			c.Write(unhx(kv["pre"]))
+			if closedWithin(c, time.Duration(hto)*4*time.Millisecond+1500*time.Millisecond) {
+				closed = "1"
+			} else {
+				closed = "0"
+			}
+			defer c.Close()
 		case "abort":
 			// client closes / resets after `at` bytes written, at any point of the handshake or of HTTP traffic
 			d := net.Dialer{Timeout: 3 * time.Second}
@@ -191,6 +207,11 @@ func init() {
 		}
 		c.op("life kind=idle proto=h2 idle=250 how=rst")
 		c.tag("kind:idle-after-rst")
+		for _, pre := range []string{"GET / HTTP/1.1\r\nHost: x\r\n\r\n", "POST /x HTTP/1.1\r\n", "HEAD ", "PUT /", "OPTIONS * HTTP/1.1\r\n\r\n", "CONNECT x:443 HTTP/1.1\r\n\r\n",
+			"PRI * HTTP/2.0\r\n\r\nSM\r\n\r\n", "\x80\x2e\x01\x00\x02", "\x16\x03\x01", "\x15\x03\x03\x00\x02\x02\x28", "\x00"} {
+			c.tag("kind:bstall")
+			c.op(fmt.Sprintf("life kind=bstall hto=200 pre=%s", hx([]byte(pre))))
+		}
 		for i := 0; i < c.count; i++ {
 			r := c.rng.fork()
 			p := []string{"h1", "h2"}[r.intn(2)]
